@@ -1,6 +1,7 @@
 import Goat.Lemmas.Peephole
 import Goat.Model.VMCore
 import Goat.Props.C04
+import Goat.Props.C06
 /-!
 # C02 — the bytecode optimizer is observationally transparent
 
@@ -346,8 +347,314 @@ example : splitParams (joinParams 2 (-1)) = (2, -1) := by decide
 
 end Goat.Props.C02
 
+
+/-! ## Whole lists and whole programs
+
+`rule_sound` is per window. `doOpt_sound` / `optimize_sound` lift it to every straight-line
+instruction list, and `opt_transparent` composes it with C06's `body_correct`: a program of the
+modelled control-flow forms compiled from peephole-optimized leaves (jump offsets from the
+optimized block lengths) computes exactly what the same program compiled from the unoptimized
+leaves computes, which is what Go's semantics prescribes. -/
+
+namespace Goat.Props.C02
+open Goat.Peephole Goat.VMCore
+
+variable {V H : Type}
+
+theorem run_append (P : Prims V H) (call : CallSem V H) (a b : List Instr) (σ : State V H) :
+    run P call (a ++ b) σ = (run P call a σ).bind (run P call b) := by
+  induction a generalizing σ with
+  | nil => simp [run]
+  | cons i is ih =>
+    simp only [List.cons_append, run]
+    cases h : exec1 P call i σ with
+    | none => simp
+    | some σ' => simp [ih]
+
+/-- every operand of the list fits the 16-bit packing -/
+def AllSmall (l : List Instr) : Prop :=
+  ∀ i ∈ l, (-32768 ≤ i.a ∧ i.a < 32768) ∧ (-32768 ≤ i.b ∧ i.b < 32768)
+
+theorem AllSmall.small {l : List Instr} (h : AllSmall l) : SmallOperands l :=
+  fun i hi => h i (List.mem_of_mem_take hi)
+
+theorem AllSmall.drop {l : List Instr} (h : AllSmall l) (k : Nat) : AllSmall (l.drop k) :=
+  fun i hi => h i (List.mem_of_mem_drop hi)
+
+/-- **doOpt_sound.** One peephole pass over ANY straight-line instruction list leaves its meaning on
+    the machine unchanged: same final locals, operand stack and heap, or failure on both sides. -/
+theorem doOpt_sound (P : Prims V H) (L : PrimLaws P) (call : CallSem V H) (l : List Instr) :
+    AllSmall l → ∀ σ, run P call (doOpt rules l) σ = run P call l σ := by
+  fun_induction doOpt rules l with
+  | case1 => intro _ σ; rfl
+  | case2 x rest y k hm ih =>
+    intro hs σ
+    have hm' := hm
+    simp only [matchAt, Option.map_eq_some_iff] at hm'
+    obtain ⟨r, hfind, hb⟩ := hm'
+    have hmem : r ∈ rules := List.mem_of_find?_eq_some hfind
+    have hf : fires r (x :: rest) = true := by
+      have := List.find?_some hfind
+      simpa using this
+    have hy : y = build r (x :: rest) := by cases hb; rfl
+    have hk : k = r.lhs.length := by cases hb; rfl
+    have hlen := (fact_len r hmem)
+    have hk1 : max k 1 = k := by omega
+    have hsound := rule_sound P L call r hmem (x :: rest) σ hf hs.small
+    have split : x :: rest = (x :: rest).take k ++ (x :: rest).drop k := (List.take_append_drop k _).symm
+    rw [hk1]
+    conv => rhs; rw [split, run_append]
+    simp only [run]
+    rw [hy, ← hsound, hk]
+    cases h : run P call (List.take r.lhs.length (x :: rest)) σ with
+    | none => simp
+    | some σ' =>
+      simp only [Option.bind_some]
+      rw [← hk]
+      have := ih (by rw [hk1]; exact hs.drop k) σ'
+      rw [hk1] at this
+      exact this
+  | case3 x rest hm ih =>
+    intro hs σ
+    simp only [run]
+    cases h : exec1 P call x σ with
+    | none => simp
+    | some σ' =>
+      simp only [Option.bind_some]
+      exact ih (fun i hi => hs i (by simp [hi])) σ'
+
+end Goat.Props.C02
+
+namespace Goat.Props.C02
+open Goat.Peephole Goat.VMCore
+variable {V H : Type}
+
+/-- operands in the symmetric 16-bit range (closed under the negation of PUSH k; SUB → INCDEC −k) -/
+def Sym (i : Instr) : Prop := (-32767 ≤ i.a ∧ i.a ≤ 32767) ∧ (-32767 ≤ i.b ∧ i.b ≤ 32767)
+def AllSym (l : List Instr) : Prop := ∀ i ∈ l, Sym i
+
+theorem AllSym.allSmall {l : List Instr} (h : AllSym l) : AllSmall l := by
+  intro i hi
+  have := h i hi
+  unfold Sym at this
+  omega
+
+def srcOK : Gen.Src → Bool
+  | .none => true
+  | .fld _ .A => true
+  | .fld _ .B => true
+  | .neg _ .A => true
+  | .neg _ .B => true
+  | _ => false
+
+theorem fact_src : ∀ r ∈ rules, srcOK r.a = true ∧ srcOK r.b = true := by decide
+
+theorem srcVal_sym {l : List Instr} (h : AllSym l) (s : Gen.Src) (hs : srcOK s = true) :
+    -32767 ≤ srcVal l s ∧ srcVal l s ≤ 32767 := by
+  cases s with
+  | none => simp [srcVal]
+  | fld i f =>
+    cases f <;> simp [srcOK] at hs <;> simp only [srcVal, Instr.fld] <;>
+    · cases hx : l[i]? with
+      | none => simp
+      | some x =>
+        have := h x (List.mem_of_getElem? hx)
+        unfold Sym at this
+        simp; omega
+  | neg i f =>
+    cases f <;> simp [srcOK] at hs <;> simp only [srcVal, Instr.fld] <;>
+    · cases hx : l[i]? with
+      | none => simp
+      | some x =>
+        have := h x (List.mem_of_getElem? hx)
+        unfold Sym at this
+        simp; omega
+  | join => simp [srcOK] at hs
+
+theorem doOpt_sym (l : List Instr) : AllSym l → AllSym (doOpt rules l) := by
+  fun_induction doOpt rules l with
+  | case1 => intro _ i hi; simp at hi
+  | case2 x rest y k hm ih =>
+    intro hs i hi
+    simp only [List.mem_cons] at hi
+    rcases hi with rfl | hi
+    · simp only [matchAt, Option.map_eq_some_iff] at hm
+      obtain ⟨r, hfind, hb⟩ := hm
+      have hmem : r ∈ rules := List.mem_of_find?_eq_some hfind
+      have hy : i = build r (x :: rest) := by cases hb; rfl
+      have ⟨ha, hb'⟩ := fact_src r hmem
+      rw [hy]
+      exact ⟨srcVal_sym hs r.a ha, srcVal_sym hs r.b hb'⟩
+    · exact ih (fun j hj => hs j (List.mem_of_mem_drop hj)) i hi
+  | case3 x rest hm ih =>
+    intro hs i hi
+    simp only [List.mem_cons] at hi
+    rcases hi with rfl | hi
+    · exact hs i (by simp)
+    · exact ih (fun j hj => hs j (by simp [hj])) i hi
+
+/-- **optimize_sound.** `optimize` (both passes, as generated from compiler.go) preserves the meaning
+    of every straight-line instruction list. -/
+theorem optimize_sound (P : Prims V H) (L : PrimLaws P) (call : CallSem V H) (l : List Instr)
+    (hs : AllSym l) (σ : State V H) : run P call (optimize l) σ = run P call l σ := by
+  unfold optimize
+  generalize List.range Gen.optimizePasses = passes
+  induction passes generalizing l with
+  | nil => rfl
+  | cons _ ps ih =>
+    simp only [List.foldl_cons]
+    rw [ih (doOpt Gen.peephole l) (doOpt_sym l hs)]
+    exact doOpt_sound P L call l hs.allSmall σ
+
+end Goat.Props.C02
+
+namespace Goat.Props.C02
+open Goat.Peephole Goat.VMCore Goat.CF
+
+variable {V H : Type}
+
+/-- leaf semantics on the VMCore machine: a leaf runs as straight-line code (failure is absorbing);
+    a condition's value is the truth of the operand it leaves on top, which the jump then pops -/
+def leafSem (P : Prims V H) (call : CallSem V H) (truth : V → Bool)
+    (ri : Int → Option (State V H) → Option (State V H))
+    (rn : Int → Int → Option (State V H) → Option (Option (State V H)))
+    (rd : Int → Option (State V H) → Option (State V H)) (L : Leaves) : Sem (Option (State V H)) where
+  act n s := s.bind (run P call (L.act n))
+  cval c s := match s.bind (run P call (L.cnd c)) with
+    | some σ => (σ.ops.head?.map truth).getD false
+    | none => false
+  ceff c s := (s.bind (run P call (L.cnd c))).map fun σ => { σ with ops := σ.ops.tail }
+  rinit := ri
+  rnext := rn
+  rdone := rd
+
+def LeavesSym (L : Leaves) : Prop := (∀ n, AllSym (L.act n)) ∧ (∀ c, AllSym (L.cnd c))
+
+theorem leafSem_opt (P : Prims V H) (PL : PrimLaws P) (call : CallSem V H) (truth ri rn rd) (L : Leaves)
+    (hs : LeavesSym L) : leafSem P call truth ri rn rd (optLeaves L) = leafSem P call truth ri rn rd L := by
+  have ha : ∀ n, run P call (optimize (L.act n)) = run P call (L.act n) :=
+    fun n => funext fun σ => optimize_sound P PL call _ (hs.1 n) σ
+  have hc : ∀ c, run P call (optimize (L.cnd c)) = run P call (L.cnd c) :=
+    fun c => funext fun σ => optimize_sound P PL call _ (hs.2 c) σ
+  simp only [leafSem, optLeaves, ha, hc]
+
+theorem doOpt_ne_nil (l : List Instr) (h : l ≠ []) : doOpt rules l ≠ [] := by
+  cases l with
+  | nil => exact absurd rfl h
+  | cons i rest =>
+    rw [doOpt]
+    split <;> simp
+
+theorem optimize_ne_nil (l : List Instr) (h : l ≠ []) : optimize l ≠ [] := by
+  unfold optimize
+  generalize List.range Gen.optimizePasses = passes
+  induction passes generalizing l with
+  | nil => exact h
+  | cons _ ps ih => simp only [List.foldl_cons]; exact ih _ (doOpt_ne_nil l h)
+
+theorem fact_rhs_noPH : ∀ r ∈ rules, r.rhs ≠ "BREAK" ∧ r.rhs ≠ "CONTINUE" := by decide
+
+theorem doOpt_noPH (l : List Instr) : (∀ i ∈ l, isPH i = false) → ∀ i ∈ doOpt rules l, isPH i = false := by
+  fun_induction doOpt rules l with
+  | case1 => intro _ i hi; simp at hi
+  | case2 x rest y k hm ih =>
+    intro hs i hi
+    simp only [List.mem_cons] at hi
+    rcases hi with rfl | hi
+    · simp only [matchAt, Option.map_eq_some_iff] at hm
+      obtain ⟨r, hfind, hb⟩ := hm
+      have hmem : r ∈ rules := List.mem_of_find?_eq_some hfind
+      have hy : i = build r (x :: rest) := by cases hb; rfl
+      have := fact_rhs_noPH r hmem
+      rw [hy]
+      simp [isPH, build, this.1, this.2]
+    · exact ih (fun j hj => hs j (List.mem_of_mem_drop hj)) i hi
+  | case3 x rest hm ih =>
+    intro hs i hi
+    simp only [List.mem_cons] at hi
+    rcases hi with rfl | hi
+    · exact hs i (by simp)
+    · exact ih (fun j hj => hs j (by simp [hj])) i hi
+
+theorem optimize_noPH (l : List Instr) (h : ∀ i ∈ l, isPH i = false) : ∀ i ∈ optimize l, isPH i = false := by
+  unfold optimize
+  generalize List.range Gen.optimizePasses = passes
+  induction passes generalizing l with
+  | nil => exact h
+  | cons _ ps ih => simp only [List.foldl_cons]; exact ih _ (doOpt_noPH l h)
+
+theorem leavesOK_base (P : Prims V H) (call : CallSem V H) (truth ri rn rd) (L : Leaves)
+    (h1 : ∀ n, ∀ i ∈ L.act n, isPH i = false) (h2 : ∀ c, ∀ i ∈ L.cnd c, isPH i = false) (h3 : ∀ c, L.cnd c ≠ []) :
+    LeavesOK (leafSem P call truth ri rn rd L) L :=
+  ⟨h1, h2, h3, by
+    intro n he s
+    simp only [leafSem, he]
+    cases s <;> simp [run]⟩
+
+/-- **opt_transparent (composition of C02 with C06).** Take any program of the modelled control-flow
+    forms (any nesting of if / for / switch / range / break / continue / return) whose leaves are
+    straight-line code of the rule table's opcodes. Compile it twice: from the leaves as they are,
+    and from the leaves after the peephole passes — jump offsets computed from the respective block
+    lengths and placeholders rewritten, as compiler.go does. Whatever Go's semantics makes the
+    program compute from a state, BOTH codes run from their first instruction to just past their
+    last one and end in exactly that state. -/
+theorem opt_transparent (P : Prims V H) (PL : PrimLaws P) (call : CallSem V H) (truth ri rn rd) (L : Leaves)
+    (h1 : ∀ n, ∀ i ∈ L.act n, isPH i = false) (h2 : ∀ c, ∀ i ∈ L.cnd c, isPH i = false) (h3 : ∀ c, L.cnd c ≠ [])
+    (hs : LeavesSym L) {s : Stmt} {st st' : Option (State V H)} {o : Out}
+    (h : Exec (leafSem P call truth ri rn rd L) s st o st') (ho : o = .normal ∨ o = .ret) (stk : List Bool) :
+    Star (leafSem P call truth ri rn rd L) L (rw 0 0 (compile L s)) (0, stk, st) ((compile L s).length, stk, st') ∧
+    Star (leafSem P call truth ri rn rd (optLeaves L)) (optLeaves L) (rw 0 0 (compile (optLeaves L) s)) (0, stk, st)
+      ((compile (optLeaves L) s).length, stk, st') := by
+  constructor
+  · exact Goat.Props.C06.body_correct (leavesOK_base P call truth ri rn rd L h1 h2 h3) h ho stk
+  · have e := leafSem_opt P PL call truth ri rn rd L hs
+    have okO : LeavesOK (leafSem P call truth ri rn rd (optLeaves L)) (optLeaves L) :=
+      leavesOK_base P call truth ri rn rd (optLeaves L)
+        (fun n => optimize_noPH _ (h1 n)) (fun c => optimize_noPH _ (h2 c)) (fun c => optimize_ne_nil _ (h3 c))
+    have h' : Exec (leafSem P call truth ri rn rd (optLeaves L)) s st o st' := by rw [e]; exact h
+    exact Goat.Props.C06.body_correct okO h' ho stk
+
+end Goat.Props.C02
+
+namespace Goat.Props.C02.Demo
+open Goat.Peephole Goat.VMCore Goat.CF Goat.Props.C02
+
+def ip : Prims Int Unit :=
+  { untyped := id, intV := id, global := id,
+    add := fun a b => some (a + b), sub := fun a b => some (a - b), mul := fun a b => some (a * b),
+    div := fun a b => if b = 0 then none else some (a / b),
+    assignTo := fun v _ => v, get := fun _ _ _ => none, set := fun _ _ _ _ => none,
+    getattr := fun _ _ _ => none, setattr := fun _ _ _ _ => none }
+
+example : PrimLaws ip :=
+  ⟨by intro a k; simp [ip]; omega, by intros; rfl, by intros; rfl, by intros; rfl⟩
+
+def dl : Leaves :=
+  { act := fun n => if n = 1 then [⟨"LOCALGET", 0, 0, 0, 0⟩, ⟨"LOCALGET", 1, 0, 0, 0⟩, ⟨"ADD", 0, 0, 0, 0⟩, ⟨"LOCALSET", 0, 0, 0, 0⟩]
+                    else [⟨"LOCALGET", 1, 0, 0, 0⟩, ⟨"PUSH", 1, 0, 0, 0⟩, ⟨"ADD", 0, 0, 0, 0⟩, ⟨"LOCALSET", 1, 0, 0, 0⟩],
+    cnd := fun _ => [⟨"LOCALGET", 0, 0, 0, 0⟩] }
+
+example : optimize (dl.act 1) = [⟨"LOCALADD", 0, 1, 0, 0⟩, ⟨"LOCALSET", 0, 0, 0, 0⟩] := by
+  simp [dl, optimize, doOpt, matchAt, fires, opsOf, build, srcVal, guardOk, Gen.optimizePasses, Gen.peephole, List.range, List.range.loop, Instr.fld]
+
+
+def st0 : Option (State Int Unit) := some { locals := [2, 3], ops := [], heap := () }
+def dM : Sem (Option (State Int Unit)) :=
+  leafSem ip (fun _ _ _ _ => none) (fun v => decide (v ≠ 0)) (fun _ s => s) (fun _ _ _ => none) (fun _ s => s) dl
+
+/-- `x += y; if x { y++ }` from x = 2, y = 3 -/
+example : Exec dM (.seq (.act 1) (.ift 1 (.act 2))) st0 .normal (dM.act 2 (dM.ceff 1 (dM.act 1 st0))) :=
+  .seqN .act (.iftT (by decide) .act)
+
+example : dM.act 2 (dM.ceff 1 (dM.act 1 st0)) = some { locals := [5, 4], ops := [], heap := () } := by rfl
+
+end Goat.Props.C02.Demo
+
 #print axioms Goat.Props.C02.rule_sound
 #print axioms Goat.Props.C02.rule_pos
+#print axioms Goat.Props.C02.doOpt_sound
+#print axioms Goat.Props.C02.optimize_sound
+#print axioms Goat.Props.C02.opt_transparent
 #print axioms Goat.Props.C02.opt_stable
 #print axioms Goat.Props.C02.optimize_idempotent
 #print axioms Goat.Props.C02.windows_avoid_control
